@@ -101,7 +101,7 @@ def RunSt.kill (s : RunSt) : Tier → RunSt
 /-- Execute one request, applying the fault plan. -/
 def RunSt.exec (now : Nat) (fault : Option Fault) (s : RunSt) (t : Tier) (r : Req) : RunSt × Resp :=
   if s.dead t then
-    ({ s.bump t with trace := s.trace }, .io)      -- nothing reaches a broken connection
+    ({ s.bump t with trace := s.trace }, .wfail)   -- nothing reaches a broken connection: the write fails
   else
     let hit : Option FaultKind :=
       match fault with
